@@ -1,0 +1,94 @@
+//go:build verif
+
+// Package verifhook provides observation points for the verification harness in /verif.
+// With the `verif` build tag, Emit appends one JSON line per event to the file named by
+// GROG_VERIF_TRACE (or hands it to Sink when an in-process harness installed one), and Gate
+// calls GateFn when an in-process harness installed one. Without the environment variable and
+// without Sink/GateFn every hook returns immediately.
+package verifhook
+
+import (
+	"bytes"
+	"encoding/json"
+	"os"
+	"runtime"
+	"strconv"
+	"sync"
+	"time"
+)
+
+// Enabled reports whether the hooks are compiled in.
+const Enabled = true
+
+var (
+	// Sink, when set by an in-process harness, receives every event instead of the trace file.
+	Sink func(kind string, kv []any)
+	// GateFn, when set by an in-process harness, is called at every Gate.
+	GateFn func(name string, kv []any)
+
+	mu      sync.Mutex
+	seq     int64
+	file    *os.File
+	opened  bool
+	delayAt = os.Getenv("GROG_VERIF_DELAY") // "<gate name>=<milliseconds>[,...]"
+)
+
+// Goid returns the current goroutine id (used to attribute events to goroutines).
+func Goid() int64 {
+	var buf [64]byte
+	n := runtime.Stack(buf[:], false)
+	b := bytes.TrimPrefix(buf[:n], []byte("goroutine "))
+	i := bytes.IndexByte(b, ' ')
+	if i < 0 {
+		return -1
+	}
+	id, _ := strconv.ParseInt(string(b[:i]), 10, 64)
+	return id
+}
+
+func Emit(kind string, kv ...any) {
+	if Sink != nil {
+		Sink(kind, kv)
+		return
+	}
+	mu.Lock()
+	defer mu.Unlock()
+	if !opened {
+		opened = true
+		if p := os.Getenv("GROG_VERIF_TRACE"); p != "" {
+			file, _ = os.OpenFile(p, os.O_APPEND|os.O_CREATE|os.O_WRONLY, 0644)
+		}
+	}
+	if file == nil {
+		return
+	}
+	seq++
+	m := map[string]any{"seq": seq, "pid": os.Getpid(), "k": kind}
+	for i := 0; i+1 < len(kv); i += 2 {
+		if k, ok := kv[i].(string); ok {
+			m[k] = kv[i+1]
+		}
+	}
+	line, err := json.Marshal(m)
+	if err != nil {
+		return
+	}
+	_, _ = file.Write(append(line, '\n'))
+}
+
+func Gate(name string, kv ...any) {
+	if GateFn != nil {
+		GateFn(name, kv)
+		return
+	}
+	if delayAt == "" {
+		return
+	}
+	for _, part := range bytes.Split([]byte(delayAt), []byte(",")) {
+		eq := bytes.IndexByte(part, '=')
+		if eq > 0 && string(part[:eq]) == name {
+			ms, _ := strconv.Atoi(string(part[eq+1:]))
+			time.Sleep(time.Duration(ms) * time.Millisecond)
+		}
+	}
+}
